@@ -97,6 +97,9 @@ pub struct State {
     /// a second, independent site-directed preemption (MAYV_STALL_AT2): interleavings that need two threads held
     pub stall_at2: Option<(String, u32, u32, u32, u64)>,
     pub stall_at2_hits: u32,
+    /// MAYV_TIES=1: threads due at the same virtual instant may become ready together (opt-in per scenario entry:
+    /// scenario code must then not hold a real lock across a schedule point in threads with equal deadlines)
+    pub wake_ties: bool,
 }
 
 pub struct Ctl {
@@ -249,10 +252,10 @@ impl State {
             if dmin > self.now {
                 self.now = dmin;
             }
-            // Half of the time ALL the threads that are due at this instant become ready together, so that they
+            // MAYV_TIES=1: half of the time ALL the threads that are due at this instant become ready together, so that they
             // interleave at their schedule points (a timer handler racing with the event it times out); otherwise
             // one of them runs until it blocks before the next one is woken (the two serial orders).
-            let all = ties.len() > 1 && self.next_rand() % 2 == 0;
+            let all = self.wake_ties && ties.len() > 1 && self.next_rand() % 2 == 0;
             for &j in ties.iter().filter(|&&j| all || j == i) {
                 let was_polling = self.threads[j].is_polling();
                 self.threads[j].st = TS::Ready;
@@ -882,6 +885,7 @@ pub fn run(cfg: Config, body: impl FnOnce(&Ctx)) -> ! {
         stall_at_hits: 0,
         stall_at2: cfg.stall_at2.clone(),
         stall_at2_hits: 0,
+        wake_ties: std::env::var("MAYV_TIES").map(|v| v == "1").unwrap_or(false),
     };
     for _ in 0..8 {
         st.next_rand();
